@@ -472,6 +472,31 @@ theorem C02_lanelet_roundtrip (l : Lanelet) : decLanelet (encLanelet l) = .ok (n
 /-- location: environment (time with day / month / year, time of day, weather, underground) and geo transformation -/
 theorem C02_location_roundtrip (l : Loc) : decLoc (encLoc l) = l := decLoc_enc l
 
+/-- environment time, member by member: day, month and year travel INDEPENDENTLY of each other — each one that is given
+    comes back with its value and each one that is absent stays absent whatever the other two are (all 8 subsets of
+    {day, month, year}: a date without a year keeps day and month, a year without day / month does not get them) -/
+theorem C02_time_date_members (t : Tm) :
+    (decTm (encTm t)).day = t.day ∧ (decTm (encTm t)).month = t.month ∧ (decTm (encTm t)).year = t.year ∧
+    (decTm (encTm t)).h = t.h ∧ (decTm (encTm t)).m = t.m := by
+  rw [decTm_enc]; exact ⟨rfl, rfl, rfl, rfl, rfl⟩
+
+/-- **Witness: deciding on the year alone is lossy.**  A reader that takes the date only when `year` is set — and then
+    fills an unset day / month with 1 — is not a left inverse of the writer: it drops day and month of a date without a
+    year and invents them for a year without day / month. -/
+theorem C02_witness_date_by_year_alone :
+    let dec (m : PB) : Tm :=
+      if m.has "year" then
+        ⟨(m.get "hour").int, (m.get "minute").int, some (if m.has "day" then (m.get "day").int else 1),
+         some (if m.has "month" then (m.get "month").int else 1), (m.get "year").optInt⟩
+      else ⟨(m.get "hour").int, (m.get "minute").int, none, none, none⟩
+    (∃ t : Tm, t.year = none ∧ (dec (encTm t)).day ≠ t.day ∧ (dec (encTm t)).month ≠ t.month) ∧
+    (∃ t : Tm, t.day = none ∧ t.month = none ∧ (dec (encTm t)).day = some 1 ∧ (dec (encTm t)).month = some 1) :=
+  ⟨⟨⟨14, 30, some 24, some 12, none⟩, by decide⟩, ⟨⟨8, 0, none, none, some 2021⟩, by decide⟩⟩
+
+example : decTm (encTm ⟨14, 30, some 24, some 12, none⟩) = ⟨14, 30, some 24, some 12, none⟩ := by decide
+example : decTm (encTm ⟨8, 0, none, none, some 2021⟩) = ⟨8, 0, none, none, some 2021⟩ := by decide
+example : decTm (encTm ⟨6, 5, none, some 7, none⟩) = ⟨6, 5, none, some 7, none⟩ := by decide
+
 /-! ## Enum transport is by member NAME -/
 
 /-- (definitional: documents the model, carries no proof content.)  The writer stores `pb.Enum.Value(member.name)`, i.e.
